@@ -2,14 +2,29 @@
    stated.  [atan2] is a parameter: the theorems that involve it assume what
    they need about it as a hypothesis (Math/ProofsTrig.v).
    No proofs in this file. *)
-From Coq Require Import Reals.
+From Coq Require Import Reals ZArith.
 From Desper Require Import Math.Sig.
+Local Open Scope R_scope.
 
 Definition Reqb (x y : R) : bool := if Req_EM_T x y then true else false.
 Definition Rltb (x y : R) : bool := if Rlt_dec x y then true else false.
+
+(* round half to even, as Python's round *)
+Definition Rfloor (x : R) : Z := (up x - 1)%Z.
+Definition Rround_int (x : R) : Z :=
+  let z := Rfloor x in
+  let r := x - IZR z in
+  if Rltb r (1 / 2) then z
+  else if Rltb (1 / 2) r then (z + 1)%Z
+  else if Z.even z then z else (z + 1)%Z.
+Definition Rround (x : R) (n : Z) : R :=
+  IZR (Rround_int (x * powerRZ 10 n)) / powerRZ 10 n.
+
+Definition Rradians (x : R) : R := x * PI / 180.
 
 Definition Rops (at2 : R -> R -> R) : ops R := {|
   gofZ := IZR;
   gadd := Rplus; gmul := Rmult; gsub := Rminus; gdiv := Rdiv; gopp := Ropp;
   gsqrt := sqrt; gcos := cos; gsin := sin; gatan2 := at2;
+  gtan := tan; gpi := PI; gradians := Rradians; ground := Rround;
   gltb := Rltb; geqb := Reqb |}.
